@@ -124,3 +124,12 @@ func depthOf(e entryKind, b []byte) (depth, refDepth int, mismatch bool) {
 	}
 	return sd, -1, false
 }
+
+// structDepthOf is the structural depth alone (no reference decoder).
+func structDepthOf(e entryKind, b []byte) int {
+	switch e {
+	case eLabel, eV4, eV4DS:
+		return 1
+	}
+	return structDepthMsg(b)
+}
